@@ -143,5 +143,50 @@ theorem hashBytes_eq (A : Alg S) (data : Bytes) :
       (absorbAll A.blockSize A.compress A.iv data).2 data.length := by
   simp [hashBytes, digest, update, init]
 
+/-! ### Merkle–Damgård padding -/
+
+theorem natToBytesLE_length : ∀ (k n : Nat), (natToBytesLE n k).length = k := by
+  intro k
+  induction k with
+  | zero => intro n; rfl
+  | succ k ih => intro n; simp [natToBytesLE, ih]
+
+theorem mdPad_length (bs lb : Nat) (be : Bool) (pending : Bytes) (total : Nat) :
+    (mdPad bs lb be pending total).length
+      = pending.length + 1 + lb + (bs - (pending.length + 1 + lb) % bs) % bs := by
+  unfold mdPad
+  cases be <;> simp [natToBytesBE, natToBytesLE_length] <;> omega
+
+/-- the padded tail is a whole number of blocks, the smallest one that holds pending ++ 0x80 ++ length -/
+theorem mdPad_blocks (bs lb : Nat) (hbs : 0 < bs) (be : Bool) (pending : Bytes) (total : Nat) :
+    (mdPad bs lb be pending total).length % bs = 0
+    ∧ pending.length + 1 + lb ≤ (mdPad bs lb be pending total).length
+    ∧ (mdPad bs lb be pending total).length < pending.length + 1 + lb + bs := by
+  rw [mdPad_length]
+  generalize pending.length + 1 + lb = n
+  have hd := Nat.div_add_mod n bs
+  have hr : n % bs < bs := Nat.mod_lt _ hbs
+  by_cases h0 : n % bs = 0
+  · rw [h0, Nat.sub_zero, Nat.mod_self, Nat.add_zero]
+    exact ⟨h0, Nat.le_refl _, by omega⟩
+  · have hk : (bs - n % bs) % bs = bs - n % bs := Nat.mod_eq_of_lt (by omega)
+    rw [hk]
+    refine ⟨?_, by omega, by omega⟩
+    have : n + (bs - n % bs) = bs * (n / bs + 1) := by rw [Nat.mul_add, Nat.mul_one]; omega
+    rw [this, Nat.mul_mod_right]
+
+/-- absorbing a whole number of blocks leaves nothing pending -/
+theorem mdFinish_consumes {S : Type} (bs lb : Nat) (hbs : 0 < bs) (be : Bool) (f : S → Bytes → S) (cv : S) (pending : Bytes) (total : Nat) :
+    (absorbAll bs f cv (mdPad bs lb be pending total)).2 = [] := by
+  apply List.eq_nil_of_length_eq_zero
+  rw [absorbAll_pending bs hbs f _ cv _ (Nat.le_refl _)]
+  exact (mdPad_blocks bs lb hbs be pending total).1
+
+theorem mdPad_prefix (bs lb : Nat) (be : Bool) (pending : Bytes) (total : Nat) :
+    pending ++ [0x80] <+: mdPad bs lb be pending total := by
+  unfold mdPad
+  refine ⟨List.replicate ((bs - (pending.length + 1 + lb) % bs) % bs) 0 ++ (if be then natToBytesBE (total * 8) lb else natToBytesLE (total * 8) lb), ?_⟩
+  simp
+
 end HashMD
 end PM
